@@ -32,13 +32,16 @@ class ActionScheduler(Asset):
         for entry in schedule:
             assert isinstance(entry[0], (int, float))
 
-        super().__init__(name = name)
+        # Attributes are set before calling the base constructor because
+        # it initializes the Asset immediately when the simulation is
+        # already in progress.
         self._schedule = schedule.copy()
         self._is_cyclical = is_cyclical
 
         self._schedule_index = 0
         self._state = None
         self._registered_objects = {}
+        super().__init__(name = name)
 
     def initialize(self, env):
         super().initialize(env)
